@@ -6,6 +6,8 @@ spec/Curve.tla   a sequencer and case oracle (TLC has no 256-bit arithmetic), fo
              raw limb patterns at the limit of magnitudes 1 / 8 / 16 / 32 and "0 written as 2m*p"
    group     registers = P(f), f a linear form over 1, k, lambda, 2^128, 2^256-1, 2^200-1; Add / AddXY / Double / Neg /
              ECmult / ECmultGen / SetXO; the model decides infinity, doubling and cancellation cases exactly
+   limbs     raw limb patterns: every limb independently from {0, 1, all-ones, all-ones +-1, p's limb there, that +-1}
+             (the full product, 5000 patterns) x 8 magnitude variants, with the operations the contract allows
    tables    TableScalar(table, i, j) transcribed from z_init.go + the comb and wNAF identities (checked by TLC on
              scaled-down windows)
    formulas  the field-operation sequences of XYZ.Double / Add / AddXY on magnitudes: every step inside the contract
@@ -17,12 +19,15 @@ spec/Curve.tla   a sequencer and case oracle (TLC has no 256-bit arithmetic), fo
      form after EVERY step (normalised bytes, infinity flag, magnitudes of the real limbs, observers); plus simulated
      longer behaviours
   3. every table entry the model names is compared with TableScalar*G from the reference
+  3b. every limb pattern through every allowed Field method (Normalize, IsOdd, IsZero, GetB32, Equals, Mul, Sqr, Inv,
+     InvVar, Negate, SetAdd, MulInt); decompression (SetXO, DecompressPoint, ParsePubkey, ParseXOnlyPubkey, recovery)
+     of every point of two long runs of consecutive multiples of G
   4. sweeps: ECmultGen / BaseMultiply / Multiply / BaseMultiplyAdd / GetPublicKey over arithmetic progressions, random
      ECmult, the wNAF and lambda-split identities on the real helpers
   5. binding self-test: exports made with a deliberately wrong model (Bug = negmag, dbl) and corrupted table lines
      must be rejected by the replay
 """
-import json, os
+import copy, json, os, threading
 from vf import Infra
 
 ALL = '"*"'
@@ -59,8 +64,45 @@ def defs(mode, maxlen=1, fa=ALL, fb=ALL, ga=ALL, gb=ALL, cmax=4, eclen=1, emitat
     return d
 
 
+def lanes(ctx, jobs, width):
+    """Run {key: callable(private ctx copy)} on `width` threads (the TLC runs are independent and mostly single-threaded
+    exports); returns {key: result}.  Each lane has its own scratch subdirectory."""
+    keys = list(jobs)
+    res, err = {}, []
+    lock = threading.Lock()
+    nxt = [0]
+
+    def worker(w):
+        c2 = copy.copy(ctx)
+        c2.scratch = os.path.join(ctx.scratch, "lane%d" % w)
+        os.makedirs(c2.scratch, exist_ok=True)
+        c2._tlc_n = 0
+        while True:
+            with lock:
+                i = nxt[0]
+                nxt[0] += 1
+            if i >= len(keys) or err:
+                return
+            try:
+                res[keys[i]] = jobs[keys[i]](c2)
+            except BaseException as e:  # noqa
+                err.append(e)
+                return
+
+    th = [threading.Thread(target=worker, args=(w,)) for w in range(max(1, min(width, len(keys))))]
+    for t in th:
+        t.start()
+    for t in th:
+        t.join()
+    if err:
+        raise err[0]
+    return res
+
+
 def export(ctx, tag, d, vf, simulate=None, depth=None, timeout=3000):
-    r = ctx.tlc("CurveGen", "Curve_gen", workers=1, defines=d, simulate=simulate, depth=depth, timeout=timeout)
+    r = ctx.tlc("CurveGen", "Curve_gen", workers=1, defines=d, simulate=simulate, depth=depth, timeout=timeout, heap="3g")
+    if r.invariant:
+        raise Infra("Curve (%s) violates %s\n%s" % (tag, r.invariant, r.tail))
     if not r.ok:
         r.require_ok("export " + tag)
     path = os.path.join(ctx.scratch, "lines-%s.json" % tag)
@@ -86,6 +128,31 @@ def record(ctx, fails, mode, extra):
         ctx.violation(f["sig"], rp, f["what"] + " " + json.dumps(f.get("bytes") or {}, sort_keys=True)[:900])
 
 
+def export_sets(quick):
+    """The bounded configurations that are exported (tag, line tag, constants, simulation, depth) and the two
+    deliberately wrong models of the binding self-test."""
+    FSUB_A = q(["B:mid", "B:max", "W:lim:8", "W:kp:32", "B:zero"])
+    FSUB_B = q(["B:mid2", "B:p", "W:lim:32", "I:1", "B:pm1"])
+    G5 = q(["kA", "nkS", "gA", "inf", "kS"])
+    if quick:
+        sets = [("F1", "VFF", defs("field", 1), None, None),
+                ("F2", "VFF", defs("field", 2, fa=FSUB_A, fb=FSUB_B), None, None),
+                ("F3", "VFF", defs("field", 3, emitat=3), "num=80", 3),
+                ("G1", "VFG", defs("group", 1, ga=G5, gb=G5), None, None),
+                ("G2", "VFG", defs("group", 2, ga=q(["kS", "inf"]), gb=q(["kA", "nkS"]), eclen=0), None, None),
+                ("G3", "VFG", defs("group", 3, eclen=3, emitat=3), "num=12", 3)]
+    else:
+        sets = [("F1", "VFF", defs("field", 2), None, None),
+                ("F2", "VFF", defs("field", 3, fa=q(["B:mid", "W:lim:8", "B:max"]), fb=q(["B:p", "W:lim:32", "B:mid2"])), None, None),
+                ("F3", "VFF", defs("field", 5, emitat=5), "num=4000", 5),
+                ("G1", "VFG", defs("group", 1), None, None),
+                ("G2", "VFG", defs("group", 2, ga=q(["kS", "inf", "gA"]), gb=q(["kA", "nkS", "k2S"]), eclen=1), None, None),
+                ("G3", "VFG", defs("group", 5, eclen=5, emitat=5), "num=200", 5)]
+    SELF = [("field", "negmag", defs("field", 1, fa=q(["W:lim:8", "B:mid"]), fb=q(["B:max"]), bug="negmag"), "VFF", "C08:field:Negate:magnitude"),
+            ("group", "dbl", defs("group", 1, ga=q(["kS"]), gb=q(["kA"]), bug="dbl"), "VFG", "C08:group:Double:point")]
+    return sets, SELF
+
+
 def run(ctx):
     quick = ctx.tier == "quick"
     ncpu = os.cpu_count() or 4
@@ -100,20 +167,31 @@ def run(ctx):
     cov["reference_selftest_checks"] = s["checks"]
 
     # ---- 1. TLC on the design
+    # (the field / group / limbs parts are explored by the export runs below, which check TypeOK on the way)
     mc = [("formulas", defs("formulas", invs="TypeOK ContractRespected OutputsBounded")),
-          ("tables", defs("tables", invs="TypeOK TablesOK")),
-          ("field", defs("field", maxlen=2 if quick else 3, fa=q(["B:mid", "B:max", "W:lim:8", "W:kp:32"]), fb=q(["B:p", "W:lim:32", "I:1"]), invs="TypeOK")),
-          ("group", defs("group", maxlen=2, ga=q(["kS", "inf", "gA"]), gb=q(["kA", "nkS"]), invs="TypeOK"))]
+          ("tables", defs("tables", invs="TypeOK TablesOK"))]
+    BUGS = [("formulas", "dblmag", "ContractRespected"), ("tables", "comb", "TablesOK"), ("tables", "oddtab", "TablesOK")]
+    sets, SELF = export_sets(quick)
+    jobs = {}
     for tag, d in mc:
-        r = ctx.tlc("Curve", "Curve_mc", workers=min(ncpu, 8), defines=d, timeout=1800)
+        jobs[("mc", tag)] = (lambda d: lambda c2: c2.tlc("Curve", "Curve_mc", workers=2, defines=d, timeout=1800, heap="3g"))(d)
+    for mode, bug, inv in BUGS:
+        jobs[("bug", bug)] = (lambda m, b, i: lambda c2: c2.tlc("Curve", "Curve_mc", workers=2, defines=defs(m, bug=b, invs=i), timeout=900, heap="3g"))(mode, bug, inv)
+    for tag, vf, d, sim, depth in sets + [("T", "VFB", defs("tables", 0), None, None), ("L", "VFL", defs("limbs", 0), None, None)]:
+        jobs[("exp", tag)] = (lambda t, v, d, sm, dp: lambda c2: export(c2, t, d, v, simulate=sm, depth=dp))(tag, vf, d, sim, depth)
+    for mode, bug, d, vf, want in SELF:
+        jobs[("exp", "self-" + bug)] = (lambda b, d, v: lambda c2: export(c2, "self-" + b, d, v))(bug, d, vf)
+    tl = lanes(ctx, jobs, max(2, ncpu // 2))
+    for tag, d in mc:
+        r = tl[("mc", tag)]
         if r.invariant:
             raise Infra("Curve (%s) violates %s: the transcription of xyz.go / z_init.go or the contract is wrong\n%s" % (tag, r.invariant, r.tail))
         r.require_ok("mc " + tag)
         states += r.distinct
         transitions += r.generated
     refuted = []
-    for mode, bug, inv in [("formulas", "dblmag", "ContractRespected"), ("tables", "comb", "TablesOK"), ("tables", "oddtab", "TablesOK")]:
-        r = ctx.tlc("Curve", "Curve_mc", workers=2, defines=defs(mode, bug=bug, invs=inv), timeout=900)
+    for mode, bug, inv in BUGS:
+        r = tl[("bug", bug)]
         if r.invariant != inv:
             raise Infra("sanity: Curve %s with Bug=%s should violate %s, TLC says %s\n%s" % (mode, bug, inv, r.invariant, r.tail))
         refuted.append("%s/%s violates %s" % (mode, bug, inv))
@@ -121,29 +199,12 @@ def run(ctx):
 
     # ---- 2. exports and replays
     inst = 2 if quick else 3
-    FSUB_A = q(["B:mid", "B:max", "W:lim:8", "W:kp:32", "B:zero"])
-    FSUB_B = q(["B:mid2", "B:p", "W:lim:32", "I:1", "B:pm1"])
-    G5 = q(["kA", "nkS", "gA", "inf", "kS"])
-    if quick:
-        sets = [("F1", "VFF", defs("field", 1), None, None),
-                ("F2", "VFF", defs("field", 2, fa=FSUB_A, fb=FSUB_B), None, None),
-                ("F3", "VFF", defs("field", 3, emitat=3), "num=120", 3),
-                ("G1", "VFG", defs("group", 1, ga=G5, gb=G5), None, None),
-                ("G2", "VFG", defs("group", 2, ga=q(["kS", "inf"]), gb=q(["kA", "nkS"]), eclen=0), None, None),
-                ("G3", "VFG", defs("group", 3, eclen=3, emitat=3), "num=20", 3)]
-    else:
-        sets = [("F1", "VFF", defs("field", 2), None, None),
-                ("F2", "VFF", defs("field", 3, fa=q(["B:mid", "W:lim:8", "B:max"]), fb=q(["B:p", "W:lim:32", "B:mid2"])), None, None),
-                ("F3", "VFF", defs("field", 5, emitat=5), "num=4000", 5),
-                ("G1", "VFG", defs("group", 1), None, None),
-                ("G2", "VFG", defs("group", 2, ga=q(["kS", "inf", "gA"]), gb=q(["kA", "nkS", "k2S"]), eclen=1), None, None),
-                ("G3", "VFG", defs("group", 5, eclen=5, emitat=5), "num=300", 5)]
     total = {"cases": 0, "steps": 0, "checks": 0, "fail": 0}
     nontriv = 0
     ops, unjudged, skipped = {}, {}, {}
     keep = {}
     for tag, vf, d, sim, depth in sets:
-        r, path, n = export(ctx, tag, d, vf, simulate=sim, depth=depth)
+        r, path, n = tl[("exp", tag)]
         if not sim:
             states += r.distinct or 0
             transitions += r.generated or 0
@@ -170,7 +231,7 @@ def run(ctx):
             os.remove(path)
 
     # ---- 3. tables
-    r, tpath, n = export(ctx, "T", defs("tables", 0), "VFB")
+    r, tpath, n = tl[("exp", "T")]
     every = 1     # all 9217 entries in both tiers (8 s of reference CPU)
     s, f = driver(ctx, binp, ["tables", "-in", tpath, "-every", str(every), "-workers", str(ncpu)])
     if s.get("infra"):
@@ -186,8 +247,36 @@ def run(ctx):
     with open(tpath) as fh:
         ctx.sample(json.loads(fh.readlines()[8200]))
 
+    # ---- 3b. raw limb patterns; decompression of long runs of consecutive points
+    r, lpath, n = tl[("exp", "L")]
+    states += r.distinct or 0
+    transitions += r.generated or 0
+    s, f = driver(ctx, binp, ["limbs", "-in", lpath, "-seed", str(ctx.seed), "-workers", str(ncpu)])
+    if s.get("infra"):
+        raise Infra("limbs: %s" % s["infra"][:3])
+    if s["lines"] != n:
+        raise Infra("limbs consumed %d of %d lines" % (s["lines"], n))
+    record(ctx, f, "limbs", dict(seed=ctx.seed))
+    ctx.log("limb patterns: %d (pattern, magnitude variant) cases, %d operations, %d comparisons: %d failures" % (n, s["steps"], s["checks"], s["fail"]))
+    cov["limb_pattern_cases"] = n
+    for k in total:
+        total[k] += s[k]
+    nontriv += s["distinct_nontrivial"]
+    with open(lpath) as fh:
+        ctx.sample(json.loads(fh.readlines()[31337]), limit=5)
+    nlift = 300000 if quick else 3000000
+    s, f = driver(ctx, binp, ["lift", "-n", str(nlift), "-seed", str(ctx.seed), "-workers", str(ncpu)])
+    if s.get("infra"):
+        raise Infra("lift: %s" % s["infra"][:3])
+    record(ctx, f, "lift", dict(seed=ctx.seed, n=nlift))
+    ctx.log("decompression of 2 x %d consecutive multiples of G (%d calls): %s" % (nlift, s["steps"], s.get("hits") or "no deviation"))
+    cov["lifted_points"] = 2 * nlift
+    for k in total:
+        total[k] += s[k]
+    nontriv += 2 * nlift
+
     # ---- 4. sweeps
-    nsweep = 60000 if quick else 600000
+    nsweep = 30000 if quick else 600000
     s, f = driver(ctx, binp, ["sweep", "-n", str(nsweep), "-seed", str(ctx.seed), "-workers", str(ncpu)])
     if s.get("infra"):
         raise Infra("sweep: %s" % s["infra"][:3])
@@ -200,7 +289,7 @@ def run(ctx):
     nontriv += nsweep
 
     # ---- 5. binding self-test
-    selftest(ctx, binp, tpath)
+    selftest(ctx, binp, tpath, lpath, SELF, tl)
 
     ctx.level = "exploration"
     cov.update({"states": states, "transitions": transitions,
@@ -209,7 +298,8 @@ def run(ctx):
                 "last_operation_of_replayed_lines": ops, "results_not_defined_by_the_property": unjudged, "behaviours_cut_short": skipped,
                 "rule": "TLC BFS over the abstract state graph of Curve (VIEW = magnitudes, normalised / zero flags, operand names; forms and "
                         "representations) within the bounds in checks/c08.py, one exported line per transition with a concrete shortest path, "
-                        "plus simulated behaviours; every line replayed %d times with fresh generic values; every named table entry; swept "
+                        "plus simulated behaviours; every line replayed %d times with fresh generic values; every named table entry; every limb "
+                        "pattern of the product class x 8 magnitude variants; every point of two runs of consecutive multiples of G; swept "
                         "scalars. Counted as distinct and non-trivial: distinct exported lines (each exercises at least one Field / XYZ / XY "
                         "method on a boundary operand or a computed value), compared table entries, swept scalars" % inst,
                 "exhaustive": False})
@@ -221,16 +311,25 @@ def run(ctx):
     ]
 
 
-def selftest(ctx, binp, tpath):
+def selftest(ctx, binp, tpath, lpath, SELF, tl):
     # a model whose Negate keeps the magnitude, a model whose Double does not double: the replay must object
-    for mode, bug, d, vf, want in [
-            ("field", "negmag", defs("field", 1, fa=q(["W:lim:8", "B:mid"]), fb=q(["B:max"]), bug="negmag"), "VFF", "C08:field:Negate:magnitude"),
-            ("group", "dbl", defs("group", 1, ga=q(["kS"]), gb=q(["kA"]), bug="dbl"), "VFG", "C08:group:Double:point")]:
-        r, path, n = export(ctx, "self-" + bug, d, vf)
+    for mode, bug, d, vf, want in SELF:
+        r, path, n = tl[("exp", "self-" + bug)]
         s, f = driver(ctx, binp, ["replay", "-in", path, "-seed", str(ctx.seed), "-inst", "1", "-workers", "4"])
         sigs = set(x["sig"] for x in f)
         if want not in sigs:
             raise Infra("binding self-test: export with Bug=%s was not rejected with %s (got %s, infra %s)" % (bug, want, sorted(sigs), s.get("infra")))
+    # a limb line whose magnitude claim is too small must be refused (the driver checks the claim against the limbs)
+    for l in open(lpath):
+        j = json.loads(l)
+        if j["v"] == {"kind": "mul", "c": 16} and j["l"][1] == "M":
+            j["m"] = 2
+            break
+    p = os.path.join(ctx.scratch, "mut-limbs.json")
+    open(p, "w").write(json.dumps(j) + "\n")
+    s, f = driver(ctx, binp, ["limbs", "-in", p, "-seed", "1", "-workers", "1"])
+    if not s.get("infra"):
+        raise Infra("binding self-test: a limb line with a wrong magnitude claim was accepted")
     # corrupted table line
     lines = open(tpath).read().splitlines()
     j = json.loads(lines[5000])
@@ -256,6 +355,11 @@ def replay_cmd(ctx, path):
         s, f = driver(ctx, binp, ["tables", "-in", p, "-every", "1", "-workers", "1"])
     elif mode == "sweep":
         s, f = driver(ctx, binp, ["sweep", "-n", str(rp["n"]), "-seed", str(rp["seed"]), "-workers", str(os.cpu_count() or 4)])
+    elif mode == "limbs":
+        open(p, "w").write(rp["raw"] + "\n")
+        s, f = driver(ctx, binp, ["limbs", "-in", p, "-seed", str(rp["seed"]), "-workers", "1"])
+    elif mode == "lift":
+        s, f = driver(ctx, binp, ["lift", "-n", str(rp["n"]), "-seed", str(rp["seed"]), "-workers", str(os.cpu_count() or 4)])
     else:
         print("unknown replay mode", mode)
         return 2
